@@ -13,20 +13,35 @@ CFG = {'lean_modules': ['ObiVerif.Props.C08'],
          'with the verbatim model and with the same fill on a fresh arena; op bt = _Backtracking alone on arbitrary valid path matrices (single and multi-base '
          'steps, the alternating matrices that fill the 2*(la+lb) cells of the path buffer completely) with path buffers of capacity 0, 1, la+lb, 2(la+lb)-1, '
          '2(la+lb), larger, all holding stale values; op cons = BuildQualityConsensus on random consuming paths (either sign at both ends, adjacent opposite '
-         'runs, (0,0) pairs); hand-picked corpus with the witnesses of every repaired defect, the boundary cases of the column rule (each of the 15 symbols '
-         'with quality 0, 1, 2, 90, 91, 93 opposite a leading / internal / trailing gap on either side; every ordered pair of symbols at equal qualities 0, 1, '
-         '40, 93 with the stale qM/qm coming from nothing, from an unequal column, from a gap column; n opposite a base for every order of the qualities; '
-         'mismatch qualities at the ends of the table), pairs whose quality-0 / quality-1 bases sit in the unpaired ends and opposite an internal indel, every '
-         'pair of extreme qualities on overlaps of 18 / 1 / 0 / full and very unequal lengths, all-N and all-IUPAC reads, every min-overlap value around the '
-         'real overlap x every min-identity value around 1; every annotation of the returned record (all keys, sorted; pairing_mismatches map; score_norm / '
-         'paring_fast_score as exact thousandths) is part of the compared result of every pe / pl case; non-trivial = distinct well-formed case (not bad-op)',
+         'runs, (0,0) pairs); op fa = PEAlign in fast mode on a worker state with a history (4-mer index left by a previous forward read that holds the 4-mers '
+         'of B at another offset — the seeded/C08-m1 shape —, path buffer of capacity 0..5 / 2(la+lb) / larger full of stale values, shifts map kept from case '
+         'to case): result, vote, what is left in the shifts map and the WHOLE path buffer after the call compared with the model, same pair on a fresh arena; '
+         'op cl = one pair through the real option parser (obioptions.GenerateOptionParser(obipairing.OptionSet) on a real argv: every pairing option alone in '
+         'both spellings, thresholds around the real overlap / identity, random combinations) and the real worker IAssemblePESequencesBatch called with the '
+         'CLI getters exactly as cmd/obitools/obipairing/main.go does, on a paired iterator whose batch holds a previous pair and the pair of the case, '
+         'reverse read given as the sequencer gives it (the worker reverse-complements it), record and all annotations compared (data for the model computed '
+         'from the INTENDED option values, not from the parsed ones); hand-picked corpus with the witnesses of every repaired defect, the boundary cases of '
+         'the column rule (each of the 15 symbols with quality 0, 1, 2, 90, 91, 93 opposite a leading / internal / trailing gap on either side; every ordered '
+         'pair of symbols at equal qualities 0, 1, 40, 93 with the stale qM/qm coming from nothing, from an unequal column, from a gap column; n opposite a '
+         'base for every order of the qualities; mismatch qualities at the ends of the table), pairs whose quality-0 / quality-1 bases sit in the unpaired '
+         'ends and opposite an internal indel, every pair of extreme qualities on overlaps of 18 / 1 / 0 / full and very unequal lengths, all-N and all-IUPAC '
+         'reads, every min-overlap value around the real overlap x every min-identity value around 1; exact-mode pe cases carrying their fragment print, per '
+         'scheme, the uniqueness hypothesis in both formulations (harness: the independent DP counts one optimal path and the true path reaches the optimum; '
+         'model: strictAlong of the true path) and are compared; every consensus column where both reads are present is re-computed alone (oracle '
+         'cons.qual-local); every score handed to the model and the gap penalty are checked against 2^20, the whole match / mismatch tables once per run; '
+         'every annotation of the returned record (all keys, sorted; pairing_mismatches map; score_norm / paring_fast_score as exact thousandths) is part of '
+         'the compared result of every pe / pl case; non-trivial = distinct well-formed case (not bad-op)',
  'technique': 'Lean 4 theorems on a model parametric in the score function and the gap penalty (floats never modelled), with a verbatim layer (flat '
               'column-major matrices, _SetMatrices/_GetMatrix/_GetMatrixFrom index arithmetic, the two loop nests) proved equal to the recurrence layer for '
               'every arena content + a third layer holding the path buffer of the arena written from its end (proved equal for every path matrix and every '
               'buffer content / capacity) + differential correspondence of the model (executed at the arena level in BOTH modes: flat matrices + path buffer '
               'with stale content) with the real PEAlign / fills (complete matrices) / BuildQualityConsensus / AssemblePESequences (record + all annotations) '
               '/ _Backtracking alone / FastShiftFourMer + independent O(n^2) dynamic program, naive 4-mer vote, column-wise consensus oracle and metamorphic '
-              'option oracle (min-overlap, min-identity, withStats, fast annotations) run on the real code',
+              'option oracle (min-overlap, min-identity, withStats, fast annotations) run on the real code; third round: a fourth layer with everything a '
+              'worker reuses (Model/PEFastArena.lean: Index4mer position lists, shifts map with its deletes, the path slice as a window of the arena buffer or '
+              'a fresh array, append in place / reallocating) proved equal to the recurrence level for every history; transposition of fills (left scheme on '
+              '(A,B) = right scheme on (B,A)) to carry the closed condition to the B-first geometry; potential-function invariants bounding the losing scheme; '
+              'magnitude bound by induction over cells; command-line model (Model/PECli.lean) tied through the real parser and worker',
  'level_text': 'For every score function s(i,j), every gap penalty and all non-empty reads, on the Lean model: the fill matrices satisfy the three-way '
                'recurrence with the free end gaps of the scheme; _Backtracking on them terminates inside the matrix and its run-length path consumes both '
                'reads exactly (backtrack_consumes); the reported score is the score recomputed along that path (fill_score_is_path); no consuming path scores '
@@ -65,50 +80,83 @@ CFG = {'lean_modules': ['ObiVerif.Props.C08'],
                'column k holds colQual of the (base, quality) of A and B the path shows there in the (qM, qm) state left by the first k columns, seq_ab_match '
                'counts the columns with equal symbols and two positive qualities (consensus_quality_columns); gap or quality-0 base on one side -> the other '
                'quality capped at 90; match -> sum capped at 90; mismatch at different qualities -> max - adj(min) in byte arithmetic capped at 90; mismatch '
-               "at EQUAL qualities -> qM - adj(qm) of the state, independent of the column's own qualities (quality_rules); with the real table (adjAmd64, a "
+               "at EQUAL qualities -> q - adj(q) of the column's own quality (quality_rules; repaired in round 3, see below); with the real table (adjAmd64, a "
                'literal the driver requires the harness data to equal, decided entry by entry): match = min 90 (qA+qB), mismatch = min 90 (qM + mmBonus qm), '
                'mmBonus = 0,10,7,6,5,4,3,3,2,2,2,1,1,1,1,1,1,0,... (quality_values); (e) obipairing: join mode = A, ten dots, B with qualities A, ten zeros, '
                'B, one quality per base, annotations exactly ali_length, mode=join, score, score_norm, seq_ab_match (join_record); alignment mode: ali_dir, '
                'ali_length, mode, pairing_mismatches iff a column holds two different symbols, paring_fast_* iff fast, score, score_norm, seq_a_single, '
                'seq_ab_match, seq_b_single (alignment_annotations); the two rounded ratios are printed as exact thousandths, never on a rounding boundary '
-               '(ratio_rounding_exact). The model is tied to /repo by running both on the same lines every run (exported integer scores as data).',
+               '(ratio_rounding_exact). The model is tied to /repo by running both on the same lines every run (exported integer scores as data). Third round: '
+               '(f) fast mode is history independent (fast_history_independent): PEAlign in fast mode on the whole worker state — 4-mer index left by ANY '
+               'previous forward read (Index4mer empties all 256 cells: index_history_independent, cell c = positions of code c in the new read; the counting '
+               'loop over the position lists = shiftCounts; the shifts map, empty at entry, is empty at exit), flat matrices and path buffer of ANY size / '
+               'content — returns peAlignFastFrom on the vote fastShift; the path SLICE is modelled (fast_path_slice): window (*path)[p:cap] after '
+               '_Backtracking, append(arena.path[:0], 0, partLen) in the identical-overlap branch (in place when the buffer has 2 cells, the second append in '
+               'place when it has 4), path[0] += extra5 / path[len-2] += extra3 read and written THROUGH the buffer, append([]int{extra5,0}, path...) fresh: '
+               'equal to extend3 (extend5 ...) for every buffer, no index out of range. (g) error-free reassembly: the closed condition for the B-first '
+               'geometry / right scheme (errorfree_single_diagonal_strict_right, by transposition isFill_transpose / strictAlong_transpose); which scheme wins '
+               'is PROVED under the closed condition (errorfree_which_scheme_wins: A first with an overhang and gap penalty < 0 -> right optimum < left '
+               'optimum strictly; B first -> left <= right), giving end-to-end theorems without side hypothesis (errorfree_reassembly_closed_left, '
+               'errorfree_reassembly_closed_right: exact mode returns an alignment whose consensus is the fragment; isLeft = (d > 0 or e > 0) for A first). '
+               '(h) consensus qualities: one quality per column as a function of THAT column (consensus_quality_column_local: column k = colQual of the two '
+               '(base, quality) pairs of column k, nothing else) — holds on the repaired code only (defect C08-consensus-quality-column, fixed: qM/qm were '
+               'assigned only when the two qualities differ). (i) Go int: |M i j| <= (i+j)*B and |score of a consuming path| <= (la+lb)*B for scores and costs '
+               'within +-B (score_abs_bound); with B = 2^20 and reads < 2^31 every cell and every intermediate value (diag+score, left+gap, top+gap, the '
+               'running sum of the identical branch) is strictly inside (-2^62, 2^62) (int_model_valid): the Int model is valid for all lengths < 2^31. (j) '
+               'obipairing command: defaults (cli_defaults), --fast-absolute and --delta have no action with --exact-mode '
+               '(cli_exact_mode_ignores_fast_options), assemble vs join decided by --min-overlap / --min-identity only, monotone in --min-overlap '
+               '(cli_assemble_or_join), annotation keys with --without-stat (cli_without_stat_keys).',
  'level_note': "Still partial: (1) error-free reassembly: the property's claim is false as stated (repeats, strict containment: "
-               "errorfree_reassembly_repeat_false, finding D16) and is proved under the decidable hypothesis strictAlong + 'which scheme wins'; the closed "
-               'condition (only the true diagonal scores positively) is proved for the A-first geometry / left scheme only (B first: take strictAlong as '
-               "hypothesis) and still needs 'the left scheme wins' as a hypothesis; it is far from necessary (real DNA always has single-base matches off the "
-               "diagonal) — no closed necessary-and-sufficient condition exists (errorfree_overlap_once_insufficient); that strictAlong coincides with 'the "
-               "independent DP counts one optimal path' is stated, not tied: the oracle (reassembly.exact whenever the count is 1) and the theorem use the two "
-               "formulations side by side; fast mode reassembly ('true offset strict maximiser of the vote') stays oracle only; (2) the path buffer: modelled "
-               'inside _Backtracking only; in the identical-overlap branch of fast mode the Go code builds the two-entry path with append(arena.path[:0], 0, '
-               'partLen) and then extends it in place: the buffer is not modelled there, only the returned path; the aliasing of the returned path with the '
-               "arena is not observable (the harness copies it); (3) Index4mer's 256 position lists are modelled by the double loop over both 4-mer lists "
-               '(same multiset of (refpos, pos) pairs; only the per-shift counts matter, proved order-independent). Go int is modelled by Int: valid while '
-               '|scores| stay far from 2^63 (the oracle checks the table entries used). (4) qualities: the adjustment table byte(log10(1-10^(-qm/30))*10+0.5) '
-               'is data (the amd64 conversion of a negative float to byte: implementation-defined in Go); the driver refuses a table that differs from the '
-               "literal adjAmd64. Observation, not a property violation: the correction is negative, so 'qM - correction' ADDS up to 10 to the higher quality "
-               'on a mismatch (a mismatch column never gets less than the higher quality), and a mismatch at equal qualities gets the value computed from an '
-               'earlier column (stale qM/qm; 0 when no earlier column had two different qualities) — the property only asks for one quality per column. (5) '
-               "annotations: floats are compared as exact thousandths; on an exact rounding boundary of 1000*num/den both sides print '~' (6 of ~3700 quick "
-               'cases); bases are assumed ASCII for the %c / ToUpper of the pairing_mismatches keys. Float equality of the relative 4-mer scores is modelled '
-               'by exact cross-multiplication (ratios of integers < 2^20: exact in float64). Observation: in join mode AssemblePESequences drops the '
-               'paring_fast_* and pairing_mismatches annotations (written on the consensus record that join mode discards).',
+               "errorfree_reassembly_repeat_false, finding D16); it is proved under the decidable hypothesis strictAlong + 'which scheme wins' "
+               "(errorfree_reassembly_left/right) and, WITHOUT side hypothesis, under the closed condition 'only the true diagonal scores positively' for both "
+               'geometries (errorfree_reassembly_closed_left needs gap penalty < 0; with gap penalty 0 the two schemes coincide and only the hypothesis form '
+               'applies). The closed condition is far from necessary (real DNA always has single-base matches off the diagonal) — no closed '
+               "necessary-and-sufficient condition exists (errorfree_overlap_once_insufficient); for general tables 'which scheme wins' remains a hypothesis "
+               "(a comparison of two integers). That strictAlong coincides with 'the independent DP counts one optimal path (and the true path reaches the "
+               "optimum)' is tied per case, per scheme (field sa= of every exact-mode pe case with its fragment: ~500 quick cases, both values occur), not "
+               "proved as an equivalence (the direction strictAlong -> unique optimum is errorfree_unique_optimum). Fast mode reassembly ('true offset strict "
+               "maximiser of the vote') stays oracle only: after the vote the local DP aligns A[startA:] / B[:partLen] and the claim needs the uniqueness "
+               'hypothesis on that window. (2) the path slice: the returned path aliases the arena buffer in the real code; the model returns a copy (the '
+               'harness copies it too): a caller that keeps the path across the next PEAlign is outside the model (AssemblePESequences consumes it at once). '
+               'After slices.Grow the real capacity may exceed the requested one (size classes): the buffer is compared only when it was not regrown (183 of '
+               '286 quick fa cases). (3) Index4mer: the index is 256 lists; cap < 256 allocates a new one; the per-cell capacity kept by [:0] is not modelled '
+               '(not observable). The shifts map is a list in first-seen order; the vote is proved independent of the order. (4) Go int is modelled by Int: '
+               'valid for reads < 2^31 and |scores|, |gap penalty| <= 2^20 (int_model_valid); the harness checks every score it hands over and the whole '
+               'tables against 2^20 (real entries < 2^9). The products (j+1)*gapPenalty of the first row / column are covered by the cell bound. (5) '
+               'qualities: the adjustment table byte(log10(1-10^(-qm/30))*10+0.5) is data (the amd64 conversion of a negative float to byte: '
+               'implementation-defined in Go); the driver refuses a table that differs from the literal adjAmd64. Observation, not a property violation: the '
+               "correction is negative, so 'qM - correction' ADDS up to 10 to the higher quality on a mismatch. (6) annotations: floats are compared as exact "
+               "thousandths; on an exact rounding boundary of 1000*num/den both sides print '~'; bases are assumed ASCII for the %c / ToUpper of the "
+               'pairing_mismatches keys. Float equality of the relative 4-mer scores is modelled by exact cross-multiplication (ratios of integers < 2^20: '
+               'exact in float64). Observation: in join mode AssemblePESequences drops the paring_fast_* and pairing_mismatches annotations. (7) command '
+               'level: the model covers the nine pairing options of options.go (both spellings), not the generic options of obioptions / obiconvert, not '
+               'repeated options, not parse errors (the real parser exits the process); --gap-penality / --penality-scale enter only through the integer gap '
+               'penalty and the column scores (data computed by the harness from the INTENDED values); file reading / pairing of the two files '
+               '(CLIPairedSequence) and the writer are other properties; the worker is run with 2 workers on one batch.',
  'trusted_base': LEAN_TB + ['extract/ (go/ast literal extraction of _FourBitsBaseCode, _FourBitsBaseDecode, __single_base_code__)',
                   'pkg/obialign/verif_hooks_c08.go (exports _PairingScorePeAlign, the two tables, the observed gap penalty), pkg/obialign/verif_hooks_c08b.go '
                   '(one fill + backtracking, copies of the two flat arena matrices), pkg/obialign/verif_hooks_c08c.go (_Backtracking on a caller-supplied path '
-                  'matrix and path buffer)',
+                  'matrix and path buffer), pkg/obialign/verif_hooks_c08d.go (set / read the path buffer of an arena), '
+                  'pkg/obitools/obipairing/verif_hooks_c08.go (reset of the option globals between two command lines)',
                   'independent DP / naive vote / column oracle / option oracle in harness/c08.go',
                   'float comparisons of ratios of integers < 2^20 are exact (4-mer relative score, min identity)',
                   'the literal quality-adjustment table adjAmd64 in Model/PEAnnot.lean is compared with the table computed by the harness with the formula of '
-                  'alignment.go on every case (mismatch = the case is refused)'],
+                  'alignment.go on every case (mismatch = the case is refused)',
+                  "the harness's own reading of the obipairing options it generates (cliNaive) and its IUPAC reverse complement (input of the worker)"],
  'modelled': 'pkg/obialign pairedendalign.go (_SetMatrices, _GetMatrix, _GetMatrixFrom, _FillMatrixPeLeftAlign, _FillMatrixPeRightAlign verbatim over the flat '
              'arena matrices in Model/PEFillV.lean and as one recurrence in Model/PEAlign.lean, PEAlign exact and fast at the three levels: recurrence, flat '
              'matrices (…A), whole arena with the path buffer (…B, Model/PEArena.lean)), backtracking.go (_Backtracking as a list in Model/PEAlign.lean and '
              'with its buffer written from the end in Model/PEBackV.lean), alignment.go (_BuildAlignment, BuildQualityConsensus with the mismatch statistics '
              'map in Model/PEAnnot.lean), pkg/obikmer encodefourmer.go (Encode4mer, Index4mer, FastShiftFourMer), pkg/obitools/obipairing pairing.go '
              '(AssemblePESequences with withStats: record and ALL annotations — mode, ali_dir, ali_length, score, score_norm and paring_fast_score as exact '
-             'thousandths, seq_a_single, seq_b_single, seq_ab_match, pairing_mismatches, paring_fast_count/overlap; JoinPairedSequence)',
+             'thousandths, seq_a_single, seq_b_single, seq_ab_match, pairing_mismatches, paring_fast_count/overlap; JoinPairedSequence); third round: '
+             'Model/PEFastArena.lean (Index4mer on the reused index, FastShiftFourMer over the position lists with its shifts map, PEAlign fast mode with the '
+             'path slice: identical-overlap append into the arena buffer, in-place / reallocating extension), Model/PECli.lean (options.go: the nine pairing '
+             'options, defaults, CLI getters; main.go: the call of IAssemblePESequencesBatch; AssemblePESequences with withStats = false)',
  'assumptions': ['reads are non-empty and lower-case (obiseq.SetSequence lower-cases), qualities 0..93 with len(qual) = len(seq)',
-                 'the score tables are finite (|entry| < 2^40): int sums do not wrap',
+                 'column scores and gap penalty within +-2^20 and reads shorter than 2^31 (then no int64 wraps: int_model_valid); checked by the harness on '
+                 'every score handed to the model and on the whole tables',
                  'cap() of an arena slice is modelled by the size of the array handed to the fill (prepare)',
                  'bases are ASCII (the keys of pairing_mismatches are printed with %c and upper-cased)',
-                 'float -> byte conversion of the negative quality correction as on amd64 (table compared on every case)']}
+                 'float -> byte conversion of the negative quality correction as on amd64 (table compared on every case)',
+                 'the shifts map handed to PEAlign is empty (every call leaves it empty: index_history_independent; a panic in between is outside)']}
